@@ -303,7 +303,6 @@ fn sign_data(t: &mut Tape, kind: Kind, text: bool, hash: HashAlgorithm, via: usi
 fn data_case(t: &mut Tape, rec: &mut Rec, kinds: &[Kind]) -> CaseResult {
     let kind = *t.pick(kinds);
     let z = zoo::get(kind);
-    let key = &z.secret.primary_key;
     let pubk = &z.public.primary_key;
     let text = t.bool();
     let hash = *t.pick(kind.hashes());
